@@ -25,11 +25,11 @@ type c10Sink struct {
 }
 
 type c10Core struct {
-	T       string     `json:"t"`
-	Enabled bool       `json:"enabled"`
-	Sinks   []c10Sink  `json:"sinks"`
-	CS      []c10Core  `json:"cs"`
-	C       *c10Core   `json:"c,omitempty"`
+	T       string    `json:"t"`
+	Enabled bool      `json:"enabled"`
+	Sinks   []c10Sink `json:"sinks"`
+	CS      []c10Core `json:"cs"`
+	C       *c10Core  `json:"c,omitempty"`
 }
 
 type c10Op struct {
